@@ -168,12 +168,23 @@ def check_blank(ctx, out):
     # (2) the hand-written normalisers: on every path that returns the rewritten text, the pieces pushed
     # add up to the length of the input text - decided symbolically (engine/lensym.py)
     from engine import lensym
-    for b in ctx.reachable_bodies():
-        if "language_parsers" not in b.id or b.promoted is not None:
+    lp = [b for b in ctx.reachable_bodies() if "language_parsers" in b.id and b.promoted is None]
+    cands = [b for b in lp if any(callee_name(t).split("::")[-1] == "push_str" for bi, t in b.calls())]
+    # an appender (all its pieces go onto a `&mut String` parameter, nothing is returned) is a fragment of
+    # its callers' normalisers: the identity is decided there, with the appender inlined - provided every
+    # caller is one of the functions analysed here
+    analysed = list(cands)
+    for b in list(cands):
+        tgt = {util.base_local(b, t["args"][0]) for bi, t in b.calls() if re.search(r"std::string::String::(push_str|push)$", callee_name(t)) and t["args"]}
+        if not tgt or not all(1 <= l <= b.argc and re.match(r"&mut std::string::String$", b.locals[l].get("ty") or "") for l in tgt):
             continue
-        names = [callee_name(t).split("::")[-1] for bi, t in b.calls()]
-        if "push_str" not in names:
-            continue
+        callers = [c for c in ctx.reachable_bodies() if c.id != b.id and any(callee_matches(t, re.escape(b.id) + "$") for bi, t in c.calls())]
+        if callers and all(c in lp for c in callers):
+            analysed.remove(b)
+            for c in callers:
+                if c not in analysed:
+                    analysed.append(c)
+    for b in analysed:
         # the identity is a proof obligation: it is discharged if it can be shown on either reading of
         # the function (helpers inlined; or the fully normalised view, where tuples / Options returned
         # by helpers are taken apart)
